@@ -494,7 +494,8 @@ def run_query(rec, q, net, twin, case, Z, ref, tag, stale=False):
 def oracle_history(case, rec):
     Z = z_matrix(case)
     classify(rec, case, Z)
-    ok, net = rec.call("construct", build, case, Z)
+    held = Z.copy()       # the array object the library currently holds
+    ok, net = rec.call("construct", build, case, held)
     if not ok:
         return
     Y = C.admittance(Z)
@@ -516,8 +517,14 @@ def oracle_history(case, rec):
         else:
             Z = z_matrix(case, step["r"])
             rec.label("step:new_values")
-        ok, _ = rec.call("update_resistances", net.update_resistances,
-                         Z.copy())
+        if step.get("inplace"):
+            # the caller edits the array it handed over earlier and passes
+            # the SAME object again: the update must still take effect
+            rec.label("step:same_array_object_edited_in_place")
+            held[...] = Z
+        else:
+            held = Z.copy()
+        ok, _ = rec.call("update_resistances", net.update_resistances, held)
         if not ok:
             return
         ok, twin = rec.call("construct_twin", build, case, Z)
@@ -635,6 +642,7 @@ def history_cases(draw):
                 st.sampled_from(["dyadic", "uniform"]))
             step = {"r": draw(resist(m, kind))}
         step["queries"] = draw(qs)
+        step["inplace"] = draw(st.integers(0, 2)) == 0
         steps.append(step)
     case["steps"] = steps
     return case
